@@ -178,7 +178,7 @@ fn main() {
         finish(&cli, rep, t0);
     }
 
-    let release_stage = cli.stage == "release_boundary";
+    let release_stage = cli.stage.starts_with("release");
     let exhaustive_bits: u32 = if release_stage { 16 } else { cli.t(24, 32) };
     let n_random: u64 = if release_stage { 200_000 } else { cli.t(1_000_000, 40_000_000) };
 
